@@ -505,6 +505,27 @@ impl Check for C03Check {
                 }
             }
         }
+        // all chains of length 4 over a focused pool (titles, title-stack / window operations,
+        // SGR stack, ANSI save / restore, soft reset): what a pair cannot show
+        if cx.begin_group("sequence chains") {
+            let focus = ["\x1b]2;A\x07", "\x1b]2;B\x07", "\x1b]1;A\x07", "\x1b]0;C\x1b\\", "\x1b[22t", "\x1b[23t", "\x1b[22;2t", "\x1b[23;2t", "\x1b[22;1t", "\x1b[23;1t", "\x1b[#{", "\x1b[#}", "\x1b[s", "\x1b[u", "\x1b[!p", "\x1b[1m", "x"];
+            let n = focus.len() as u64;
+            let mut k = 0u64;
+            for a in focus {
+                for b in focus {
+                    for c in focus {
+                        k += 1;
+                        if !cx.mine(k) {
+                            continue;
+                        }
+                        for d in focus {
+                            c03_run(cx, &format!("{}{}{}{}", a, b, c, d), true, "chain");
+                        }
+                    }
+                }
+            }
+            cx.stats.exhaustive_parts.insert(format!("all {} chains of length 4 over a focused pool of {} sequences (titles, title stack, window operations, SGR stack, save / restore, soft reset)", n * n * n * n, n));
+        }
         // all ordered pairs of a pool of complete, aborted and skipped sequences: interaction
         // through state that survives a return to ground
         if cx.begin_group("sequence pairs") {
@@ -551,6 +572,15 @@ impl Check for C03Check {
                 }
                 let utf8 = cx.rng.bool();
                 c03_run(cx, &s, utf8, "random");
+                // a chain of 3..8 pool sequences
+                if cx.rng.below(4) == 0 {
+                    let pool = seq_pool();
+                    let mut ch = String::new();
+                    for _ in 0..3 + cx.rng.usize(6) {
+                        ch.push_str(cx.rng.pick(&pool[..]).as_str());
+                    }
+                    c03_run(cx, &ch, utf8, "pool-chain");
+                }
                 // a realistic session, mutated
                 let sess = gen::session(&mut cx.rng, 20, 6, 12);
                 let m = gen::mutate(&mut cx.rng, &sess);
@@ -975,6 +1005,27 @@ impl Check for C19Check {
                 cx.stats.count("unicode_sweeps_completed", 1);
                 cx.stats.exhaustive_parts.insert("every Unicode scalar value (except BEL, ST, ESC, backslash) inside an OSC 2 payload, bare and as the partner of an ESC".into());
             }
+        }
+        // all chains of four OSC strings over codes {0,1,2} x payloads {A, B, empty} on one parser:
+        // a payload returning under another code, a code returning with another payload
+        if cx.begin_group("osc chains") {
+            let items: Vec<(char, &str)> = ['0', '1', '2'].iter().flat_map(|c| ["A", "B", ""].iter().map(move |p| (*c, *p))).collect();
+            let mut k = 0u64;
+            for a in &items {
+                for b in &items {
+                    k += 1;
+                    if !cx.mine(k) {
+                        continue;
+                    }
+                    for c in &items {
+                        for d in &items {
+                            let parts: Vec<(String, char, String, String)> = [a, b, c, d].iter().enumerate().map(|(i, (code, p))| ((if i % 2 == 0 { "\x1b]" } else { "\u{9d}" }).to_string(), *code, p.to_string(), ["\x07", "\u{9c}", "\x1b\\"][i % 3].to_string())).collect();
+                            c19_multi(cx, &parts, if k % 2 == 0 { PK::Chars } else { PK::Bytes });
+                        }
+                    }
+                }
+            }
+            cx.stats.exhaustive_parts.insert("all 6561 chains of four OSC strings over codes {0,1,2} x payloads {A, B, empty} on one parser".into());
         }
         // whatever sequence came before on the same parser - complete, aborted, skipped, one that
         // other terminals implement - the title / icon name is exactly the payload
@@ -1411,6 +1462,43 @@ impl Check for C11Check {
                 }
             }
         }
+        // chains of chunks built from pieces of multi-byte characters and ASCII runs of every
+        // length a block-wise shortcut might key on: held bytes carried across a chunk that
+        // completes one character and starts the next, then ASCII, then continuation bytes
+        if cx.begin_group("held bytes and ascii runs") {
+            let chars: [&[u8]; 4] = [b"\xC3\xA9", b"\xE2\x82\xAC", b"\xF0\x9F\x98\x80", b"\xEF\xBB\xBF"];
+            let mut k = 0u64;
+            for a in chars {
+                for b in chars {
+                    for ha in 1..a.len() {
+                        for hb in 1..b.len() {
+                            for run in [0usize, 1, 15, 16, 31, 32, 33, 63, 64, 65, 255, 256, 300] {
+                                k += 1;
+                                if !cx.mine(k) {
+                                    continue;
+                                }
+                                let ascii: Vec<u8> = (0..run).map(|i| b'a' + (i % 26) as u8).collect();
+                                // head of a | rest of a + head of b | ascii | rest of b | tail
+                                let segs = vec![
+                                    Seg::Bytes(a[..ha].to_vec()),
+                                    Seg::Bytes([&a[ha..], &b[..hb]].concat()),
+                                    Seg::Bytes(ascii.clone()),
+                                    Seg::Bytes(b[hb..].to_vec()),
+                                    Seg::Bytes(b"z".to_vec()),
+                                ];
+                                let segs: Vec<Seg> = segs.into_iter().filter(|s| !matches!(s, Seg::Bytes(v) if v.is_empty())).collect();
+                                c11_run(cx, &segs, "held+ascii");
+                                // the same with the ASCII run first (decoder never saw a byte)
+                                let segs2 = vec![Seg::Bytes(ascii), Seg::Bytes(a[..ha].to_vec()), Seg::Bytes([&a[ha..], &b[..hb]].concat()), Seg::Bytes(b[hb..].to_vec())];
+                                let segs2: Vec<Seg> = segs2.into_iter().filter(|s| !matches!(s, Seg::Bytes(v) if v.is_empty())).collect();
+                                c11_run(cx, &segs2, "held+ascii");
+                            }
+                        }
+                    }
+                }
+            }
+            cx.stats.exhaustive_parts.insert("chunk chains 'head of a | rest of a + head of b | ASCII run | rest of b' over 4 characters x every split x 13 run lengths (0..300)".into());
+        }
         // all byte strings of length <= 3 over the class alphabet
         let maxlen = 3;
         if cx.begin_group("alphabet") {
@@ -1516,17 +1604,31 @@ enum Mode {
     Bytes8,
 }
 
+/// The Screen is attached to the parser DIRECTLY here, not through the pass-through listener of the
+/// other monitors: this pair monitor needs no per-call observation, and a wrapper would hide
+/// whatever the parser does through listener methods the wrapper does not know (a defaulted trait
+/// method that only Screen overrides).
 fn run_stream(c: u32, l: u32, mode: Mode, units: &[Vec<u8>]) -> Result<Snap, crate::sys::PanicInfo> {
-    let mut sys = Sys::new(c, l, if mode == Mode::Chars { PK::Chars } else { PK::Bytes });
-    sys.set_recording(false, false);
-    if mode == Mode::Bytes8 {
-        sys.try_apply(&Op::Charset("@".into()))?;
-    }
-    for u in units {
-        let op = if mode == Mode::Chars { Op::Feed(String::from_utf8_lossy(u).into_owned()) } else { Op::FeedBytes(u.clone()) };
-        sys.try_apply(&op)?;
-    }
-    Ok(sys.snap())
+    use std::sync::{Arc, Mutex};
+    crate::sys::catch(|| {
+        let scr = Arc::new(Mutex::new(memterm::screen::Screen::new(c, l)));
+        if mode == Mode::Chars {
+            let mut p = memterm::parser::Parser::new(scr.clone());
+            for u in units {
+                p.feed(String::from_utf8_lossy(u).into_owned());
+            }
+        } else {
+            let mut bp = memterm::byte_parser::ByteParser::new(scr.clone());
+            if mode == Mode::Bytes8 {
+                bp.select_other_charset("@");
+            }
+            for u in units {
+                bp.feed(u);
+            }
+        }
+        let g = scr.lock().unwrap_or_else(|e| e.into_inner());
+        crate::snapshot::snapshot(&g)
+    })
 }
 
 /// `stream` is bytes; for Mode::Chars it must be valid UTF-8 and cuts are char boundaries
@@ -1674,6 +1776,30 @@ impl Check for C02Check {
             c02_stream(cx, 10, 3, Mode::BytesUtf8, b"abcdef", true, "witness");
             c02_stream(cx, 10, 3, Mode::BytesUtf8, b"\x1b[2;3Hx", true, "witness");
             c02_stream(cx, 10, 3, Mode::Chars, "\u{1b}[2;3Hxé日".as_bytes(), true, "witness");
+        }
+        // a run of single-cell characters that contains a pair which is narrower as a string than
+        // character by character (ligating Arabic, Lisu tones, flags ...), ending just before, at
+        // and just after the right edge: whole, every 2-way cut, one character at a time
+        if cx.begin_group("contracting pairs at the right edge") {
+            let pairs = ["\u{644}\u{627}", "\u{644}\u{622}", "\u{a4fc}\u{a4fd}", "\u{1F1E9}\u{1F1EA}", "\u{2d4f}\u{2d7f}\u{2d4f}", "1\u{fe0f}", "\u{5d0}\u{200d}\u{5dc}"];
+            let mut k = 0u64;
+            for w in [4u32, 7, 10] {
+                for pair in pairs {
+                    for before in 0..=w as usize {
+                        for after in 0..=3usize {
+                            k += 1;
+                            if !cx.mine(k) {
+                                continue;
+                            }
+                            let text: String = format!("{}{}{}", "abcdefghijkl".chars().take(before).collect::<String>(), pair, "XYZ".chars().take(after).collect::<String>());
+                            for mode in [Mode::Chars, Mode::BytesUtf8] {
+                                c02_stream(cx, w, 3, mode, text.as_bytes(), true, "edge-pair");
+                            }
+                        }
+                    }
+                }
+            }
+            cx.stats.exhaustive_parts.insert("7 contracting character pairs x every position relative to the right edge on widths 4, 7, 10: whole vs every 2-way cut vs one unit at a time, Parser and ByteParser".into());
         }
         // an ASCII prefix of every length a block-wise fast path might key on, then the first
         // non-ASCII character of the stream where it is observable (an OSC title): U+FEFF, a
